@@ -1366,3 +1366,188 @@ Proof.
     destruct (check_cycles g) as [|p| |]; [exfalso; exact (C eq_refl _ Hin Rg)|reflexivity|congruence|congruence].
 Qed.
 End Oracle.
+
+(* ================================================================================================ *)
+(* the search never trips over its own bookkeeping (for the translated code: no exception other than  *)
+(* CombinationalCycle): busy is restored exactly, merged outputs are never already checked            *)
+(* ================================================================================================ *)
+Lemma nodupb_NoDup l : nodupb l = true -> NoDup l.
+Proof.
+  induction l as [|x r IH]; simpl; [constructor|]. intro H. apply andb_true_iff in H as [H1 H2].
+  constructor; [|now apply IH]. apply negb_true_iff in H1. now apply nmem_false.
+Qed.
+
+Lemma NoDup_app_l {A} (a b : list A) : NoDup (a ++ b) -> NoDup a.
+Proof.
+  induction a as [|x a IH]; simpl; intro H; [constructor|]. inversion H; subst. constructor; [|now apply IH].
+  intro Hx. apply H2. apply in_or_app. now left.
+Qed.
+Lemma NoDup_app_r {A} (a b : list A) : NoDup (a ++ b) -> NoDup b.
+Proof. induction a as [|x a IH]; simpl; intro H; [assumption|]. inversion H; subst. now apply IH. Qed.
+
+Lemma cell_roots_nth : forall cs k c cl n, nth_error cs c = Some cl -> In n (outputs cl (k + c)) -> In n (cell_roots cs k).
+Proof.
+  induction cs as [|c0 cs IH]; intros k c cl n H Hn; [destruct c; discriminate|].
+  simpl. apply in_or_app. destruct c as [|c]; simpl in H.
+  - inversion H; subst. left. now rewrite Nat.add_0_r in Hn.
+  - right. apply (IH (S k) c cl n H). now replace (S k + c) with (k + S c) by lia.
+Qed.
+Lemma cell_roots_inv : forall cs k n, In n (cell_roots cs k) ->
+  exists c cl, nth_error cs c = Some cl /\ In n (outputs cl (k + c)).
+Proof.
+  induction cs as [|c0 cs IH]; intros k n H; [destruct H|]. simpl in H. apply in_app_or in H as [H|H].
+  - exists 0, c0. rewrite Nat.add_0_r. auto.
+  - apply IH in H as [c [cl [H1 H2]]]. exists (S c), cl. split; [assumption|]. now replace (k + S c) with (S k + c) by lia.
+Qed.
+Lemma outputs_cell c cl n : In n (outputs cl c) -> exists b, n = NC c b.
+Proof. unfold outputs. intro H. apply in_map_iff in H as [b [<- _]]. eauto. Qed.
+Lemma cell_roots_split : forall cs k c cl, nth_error cs c = Some cl ->
+  exists l1 l2, cell_roots cs k = l1 ++ outputs cl (k + c) ++ l2.
+Proof.
+  induction cs as [|c0 cs IH]; intros k c cl H; [destruct c; discriminate|]. destruct c as [|c]; simpl in *.
+  - inversion H; subst. exists [], (cell_roots cs (S k)). now rewrite Nat.add_0_r.
+  - destruct (IH (S k) c cl H) as [l1 [l2 E]]. exists (outputs c0 k ++ l1), l2.
+    rewrite E, <- app_assoc. now replace (k + S c) with (S k + c) by lia.
+Qed.
+
+Section Safe.
+Variable g : netlist.
+Hypothesis W : wf_struct g = true.
+
+Let roots_nc : forall n, In n (cell_roots (cells g) 0) -> is_const n = false.
+Proof.
+  intros n H. unfold wf_struct in W. apply andb_true_iff in W as [W1 _]. apply andb_true_iff in W1 as [W1 _].
+  apply andb_true_iff in W1 as [W1 _]. rewrite forallb_forall in W1. now apply negb_true_iff, W1.
+Qed.
+Let outputs_nodup : forall c cl, nth_error (cells g) c = Some cl -> NoDup (outputs cl c).
+Proof.
+  intros c cl H. unfold wf_struct in W. apply andb_true_iff in W as [W1 _]. apply andb_true_iff in W1 as [W1 _].
+  apply andb_true_iff in W1 as [_ W2]. apply nodupb_NoDup in W2.
+  destruct (cell_roots_split (cells g) 0 c cl H) as [l1 [l2 E]]. rewrite E in W2. simpl in W2.
+  apply NoDup_app_r in W2. now apply NoDup_app_l in W2.
+Qed.
+
+(* a net the search can meet: late, constant, or a listed output of its cell *)
+Definition valid (n : net) : Prop :=
+  match n with NL _ => True | NC _ _ => is_const n = true \/ In n (cell_roots (cells g) 0) end.
+
+Lemma valid_nets n : In n (all_nets g) -> valid n.
+Proof.
+  intros [<-|[<-|H]]; [now left|now left|]. unfold roots in H. apply in_app_or in H as [H|H].
+  - destruct n; [now right|exact I].
+  - unfold wf_struct in W. apply andb_true_iff in W as [W1 _]. apply andb_true_iff in W1 as [_ W3].
+    rewrite forallb_forall in W3. specialize (W3 n H). destruct n as [c b|l]; [|exact I].
+    apply orb_true_iff in W3 as [W3|W3]; [now left|right; now apply nmem_In].
+Qed.
+
+Lemma extras_char n e : In e (extras g n) ->
+  exists c b b' cl, n = NC c b /\ e = NC c b' /\ is_const n = false /\ nth_error (cells g) c = Some cl /\
+                    per_bit cl = false /\ In e (outputs cl c) /\ e <> n.
+Proof.
+  unfold extras. destruct (is_const n) eqn:Cn; [intros []|]. destruct n as [c b|l]; [|intros []].
+  destruct (nth_error (cells g) c) as [cl|] eqn:Ec; [|intros []]. destruct (per_bit cl) eqn:Pb; [intros []|].
+  intro H. apply filter_In in H as [H1 H2]. destruct (outputs_cell _ _ _ H1) as [b' ->].
+  exists c, b, b', cl. repeat split; auto. intro E. rewrite E in H2.
+  assert (net_eqb (NC c b) (NC c b) = true) by now apply net_eqb_eq. rewrite H in H2. discriminate.
+Qed.
+
+Lemma extras_sym n e : valid n -> In e (extras g n) -> In n (extras g e).
+Proof.
+  intros V H. destruct (extras_char n e H) as [c [b [b' [cl [-> [-> [Cn [Ec [Pb [He Hne]]]]]]]]]].
+  assert (Hn : In (NC c b) (outputs cl c)).
+  { destruct V as [V|V]; [congruence|]. apply cell_roots_inv in V as [c2 [cl2 [E2 H2]]]. simpl in H2.
+    destruct (outputs_cell _ _ _ H2) as [b2 E]. inversion E; subst. congruence. }
+  assert (Ce : is_const (NC c b') = false) by (apply roots_nc; eapply (cell_roots_nth _ 0); eassumption).
+  unfold extras. rewrite Ce, Ec, Pb. apply filter_In. split; [assumption|].
+  apply negb_true_iff. destruct (net_eqb (NC c b) (NC c b')) eqn:E; [|reflexivity]. apply net_eqb_eq in E. congruence.
+Qed.
+
+Lemma extras_trans n e z : In e (extras g n) -> In z (extras g e) -> z = n \/ In z (extras g n).
+Proof.
+  intros H1 H2. destruct (extras_char n e H1) as [c [b [b' [cl [-> [-> [Cn [Ec [Pb [He Hne]]]]]]]]]].
+  destruct (extras_char _ z H2) as [c2 [b2 [b3 [cl2 [E1 [-> [Ce [Ec2 [Pb2 [Hz Hze]]]]]]]]]].
+  inversion E1; subst c2 b2. rewrite Ec in Ec2. inversion Ec2; subst cl2.
+  destruct (net_eqb (NC c b3) (NC c b)) eqn:E; [left; now apply net_eqb_eq|right].
+  unfold extras. rewrite Cn, Ec, Pb. apply filter_In. split; [assumption|]. now rewrite E.
+Qed.
+
+Lemma extras_nodup n : NoDup (extras g n) /\ ~ In n (extras g n).
+Proof.
+  split.
+  - unfold extras. destruct (is_const n); [constructor|]. destruct n as [c b|l]; [|constructor].
+    destruct (nth_error (cells g) c) as [cl|] eqn:Ec; [|constructor]. destruct (per_bit cl); [constructor|].
+    apply NoDup_filter. eapply outputs_nodup; eassumption.
+  - intro H. destruct (extras_char n n H) as [c [b [b' [cl [_ [_ [_ [_ [_ [_ Hne]]]]]]]]]]. now apply Hne.
+Qed.
+
+(* a set of nets closed under "merged with" *)
+Definition cc (S : list net) : Prop := forall x y, In x S -> In y (extras g x) -> In y S.
+Definition pre (st : dfs) : Prop := cc (checked st) /\ cc (busy st).
+
+Lemma cc_add n S ex : valid n -> cc S -> (forall x, In x ex <-> In x (extras g n)) -> cc (ex ++ n :: S).
+Proof.
+  intros V C Hex x y Hx Hy. apply in_or_app. apply in_app_or in Hx as [Hx|[<-|Hx]].
+  - apply Hex in Hx. destruct (extras_trans _ _ _ Hx Hy) as [->|H]; [right; now left|left; now apply Hex].
+  - left. now apply Hex.
+  - right. right. eapply C; eassumption.
+Qed.
+
+Lemma cc_not_in n S e : valid n -> cc S -> ~ In n S -> In e (extras g n) -> ~ In e S.
+Proof. intros V C Hn He Hin. apply Hn. eapply C; [exact Hin|]. now apply extras_sym. Qed.
+
+Definition seteq (a b : list net) : Prop := forall x, In x a <-> In x b.
+Lemma cc_seteq a b : seteq a b -> cc a -> cc b.
+Proof. intros E C x y Hx Hy. apply E. eapply C; [apply E; exact Hx|exact Hy]. Qed.
+
+(* the invariant of one call *)
+Definition safe_res (st : dfs) (r : tres) : Prop :=
+  match r with TOk st' _ => pre st' /\ seteq (busy st') (busy st) | _ => True end.
+
+Hypothesis closed : closed_nets g.
+
+Lemma trav_loop_safe trav n :
+  (forall s st, In s (all_nets g) -> pre st -> safe_res st (trav s st)) ->
+  forall ss st, (forall s, In s ss -> In s (all_nets g)) -> pre st -> safe_res st (trav_loop trav n ss st).
+Proof.
+  intros Ht. induction ss as [|s ss IH]; intros st Hss P; simpl.
+  - split; [assumption|intro; tauto].
+  - pose proof (Ht s st (Hss s (or_introl eq_refl)) P) as H.
+    destruct (trav s st) as [st1 [[s0 p]|]|p|]; simpl in *; try exact I; [exact H|].
+    destruct H as [P1 E1]. pose proof (IH st1 (fun x Hx => Hss x (or_intror Hx)) P1) as H2.
+    destruct (trav_loop trav n ss st1) as [st2 c| |]; simpl in *; try exact I.
+    destruct H2 as [P2 E2]. split; [assumption|]. intro x. rewrite (E2 x). apply E1.
+Qed.
+
+Lemma finish_safe n st st2 : valid n -> pre st -> ~ In n (busy st) ->
+  pre st2 -> seteq (busy st2) (extras g n ++ n :: busy st) ->
+  let st' := Dfs (rev (extras g n) ++ n :: checked st2)
+                 (fold_left (fun b e => remove_net e b) (extras g n) (remove_net n (busy st2))) in
+  pre st' /\ seteq (busy st') (busy st).
+Proof.
+  intros V [Cc Cb] Hnb [Cc2 Cb2] E2 st'.
+  assert (Eb : seteq (busy st') (busy st)).
+  { intro x. unfold st'. simpl. rewrite fold_remove_In, remove_net_In, (E2 x), in_app_iff. simpl. split.
+    - intros [[[H|[H|H]] H1] H2]; [contradiction|congruence|assumption].
+    - intro H. repeat split; [right; now right| |].
+      + intro; subst; contradiction.
+      + intro He. eapply (cc_not_in n (busy st) x); eassumption. }
+  split; [split|exact Eb].
+  - unfold st'. simpl. apply cc_add; [assumption|assumption|]. intro x. now rewrite <- in_rev.
+  - eapply cc_seteq; [|exact Cb]. intro x. symmetry. apply Eb.
+Qed.
+
+Lemma traverse_safe : forall fuel n st, In n (all_nets g) -> pre st -> safe_res st (traverse g fuel n st).
+Proof.
+  induction fuel as [|fuel IH]; intros n st Hn P; simpl; [exact I|].
+  destruct (nmem n (checked st)) eqn:Ck; [split; [assumption|intro; tauto]|].
+  destruct (nmem n (busy st)) eqn:Bk; [split; [assumption|intro; tauto]|].
+  apply nmem_false in Ck, Bk. pose proof (valid_nets n Hn) as V. destruct P as [Cc Cb].
+  set (st1 := Dfs (checked st) (extras g n ++ n :: busy st)).
+  assert (P1 : pre st1) by (split; [exact Cc|apply cc_add; [assumption|assumption|intro; tauto]]).
+  pose proof (trav_loop_safe (traverse g fuel) n IH (succs g n) st1 (fun s Hs => closed n s Hn Hs) P1) as H.
+  destruct (trav_loop (traverse g fuel) n (succs g n) st1) as [st2 [[s0 p]|]|p|]; simpl in *; try exact I.
+  - destruct (net_eqb s0 n || nmem s0 (extras g n)); [exact I|]. destruct H as [P2 E2].
+    apply finish_safe; auto. split; assumption.
+  - destruct H as [P2 E2]. apply finish_safe; auto. split; assumption.
+Qed.
+End Safe.
